@@ -3,7 +3,7 @@ Model driver for C05 (bytecode well-formedness, instruction codec, register allo
 
 Requests (one per line):
   `wf <xhex bytes> <kinds>`   kinds: one letter per constant (`S` string, `I` i64, `F` f64), `-` if none
-      → `ok` | `fail <reason>@<pc>:<Op>`            (verdict = `wfChunk`, reason = `explainChunk`)
+      → `ok` | `fail <reason>@<pc>:<Op>`            (verdict = `wfChunk && flagsOk`, reason = `explainChunk` / `explainFlags`)
   `dis <xhex bytes>`          linear decoding of the whole chunk as `InstructionReader` iterates it
       → `<pc>:<size>:<Op> <operands…>|…|end@<pc>`   (`bad@<pc>` on `Instruction::Error`)
   `frame <local_count> (<args>) (<captures>) (<op>)…`   args: `L<id>` `U<id>` `P`
@@ -102,7 +102,9 @@ def handle (line : String) : String :=
   | ["wf", h, k] =>
     match bytesOfHex h, parseKinds k with
     | some bs, some ks =>
-      if wfChunk bs ks then "ok" else "fail " ++ explainChunk bs ks
+      if !wfChunk bs ks then "fail " ++ explainChunk bs ks
+      else if !flagsOk bs then "fail " ++ ((explainFlags (bs.length + 1) 0 none bs).getD "flags")
+      else "ok"
     | _, _ => "bad-request"
   | ["dis", h] =>
     match bytesOfHex h with
